@@ -5,7 +5,7 @@ from fam_exec import run_adapter_resilient, collect
 
 class Interchain(Family):
     name = "Interchain"
-    props = ["C02", "C03", "C04", "C05", "C06", "C16"]
+    props = ["C02", "C03", "C04", "C05", "C06", "C16", "C17"]
     adapter = "interadp"
     trace_module = "InterchainTrace.tla"
     trace_cfg = "InterchainTrace.cfg"
@@ -31,7 +31,8 @@ class Interchain(Family):
                        "C04": "non-trivial = trace with an accepted receipt or an expiry",
                        "C05": "non-trivial = trace with a group that received a report or expired",
                        "C06": "non-trivial = trace where a request with finite timeout reaches its expiry height (with or without receipt)",
-                       "C16": "non-trivial = trace with IBTP traffic after a service / appchain status change or to an unregistered destination"}[prop]
+                       "C16": "non-trivial = trace with IBTP traffic after a service / appchain status change or to an unregistered destination",
+                       "C17": "surface scenarios: on a live context (accepted and finished IBTPs, an open proposal) every exported method of every registered contract, enumerated by reflection, is invoked directly by an outsider, by the admin of another appchain and by a governance admin with well-typed arguments drawn from the live ids; non-trivial = trace with direct calls of internal or privileged entry points; distinct by (contract, method, role)"}[prop]
 
     def nontrivial(self, events, prop):
         blocks = [e for e in events if e["ev"] == "Block"]
@@ -47,6 +48,8 @@ class Interchain(Family):
             return any(e["groups"] for e in blocks) and any(t["typ"] != "REQ" and t["status"] == "SUCCESS" for t in ib)
         if prop == "C06":
             return any(e["tmeta"] for e in blocks) or any(t["typ"] == "REQ" and t["T"] in (1, 2, 3) and t["status"] == "SUCCESS" for t in ib)
+        if prop == "C17":
+            return any(t.get("cls") in ("surface", "direct") for t in txs)
         return any(t["k"] == "gov" for t in txs) or any(t["ret"] == "begin_failure" for t in ib)
 
     def gen_and_run(self, ctx, prop, tier):
@@ -55,9 +58,14 @@ class Interchain(Family):
         env = dict(os.environ, TMPDIR=ctx.dir)
         traces = []
         modes = [("", n), ("group", n // 2 if prop != "C05" else n), ("timed", n // 2 if prop not in ("C04", "C06") else n)]
+        if prop == "C17":
+            # every exported method of every registered contract (reflection) x caller role, on a live context
+            modes = [("surface", 3 if q else 12), ("", n // 3)]
         for i, (mode, cnt) in enumerate(modes):
             od = os.path.join(ctx.dir, "t-%d" % i)
             args = ["-n", str(cnt), "-seed", str(ctx.seed * 11 + i)] + (["-mode", mode] if mode else [])
+            if mode == "surface":
+                args += ["-frac", "3" if q else "1"]
             run_adapter_resilient(ctx.bin, args, od, env, "interadp")
             for t in collect(od):
                 t["src"] = "random" + ("-" + mode if mode else "")
